@@ -533,6 +533,14 @@ def reaches(src, target, depth=0):
     return any(reaches(x.real if isinstance(x, _Attrs) else x, target, depth + 1) for x in c[2])
 
 
+def _plain_hashable(v):
+    """atoms and tuples / frozensets (and their subclasses) of such"""
+    c = children(v)
+    if c is None:
+        return True
+    return c[0] in ("tuple", "fset", "ST", "SF", "NT") and all(_plain_hashable(x) for x in c[2])
+
+
 def do_mutate(op, roots, put=None):
     """the caller changes an object it reaches through a root, in place; `put` collects the objects of other roots
     the caller stored into it (aliasing the caller made itself)"""
@@ -566,10 +574,8 @@ def do_mutate(op, roots, put=None):
     if act == "append" and isinstance(o, list):
         o.append(val)
     elif act == "add" and isinstance(o, set):
-        try:
-            hash(val)
-        except TypeError:
-            return "skip"
+        if not _plain_hashable(val):
+            return "skip"         # (a DataClass instance hashes by identity; the histories leave that out)
         o.add(val)
     elif act == "setkey" and isinstance(o, dict) and plain in ("dict", "SD"):
         o[op.get("key", "zz")] = val
